@@ -384,8 +384,10 @@ func checkC18(p *Prog, r *Report) {
 	/* 4. Scan. */
 	var scan *ssa.Call
 	eachInstr(gf, func(i ssa.Instruction) {
-		if cc, ok := i.(*ssa.Call); ok && "strings.Split" == calleeName(cc.Common()) && cc.Common().Args[0] == ssa.Value(gf.Params[0]) {
-			scan = cc
+		if cc, ok := i.(*ssa.Call); ok && ("strings.Split" == calleeName(cc.Common()) || "bytes.Split" == calleeName(cc.Common())) && stripConv(cc.Common().Args[0], true) == ssa.Value(gf.Params[0]) {
+			if sep, isC := constString(stripConv(cc.Common().Args[1], true)); isC && "\n" == sep {
+				scan = cc
+			}
 		}
 		if cc, ok := i.(*ssa.Call); ok && strings.HasPrefix(calleeName(cc.Common()), "bufio.NewScanner") {
 			rScan.Bad(c+":scanner", posOf(cc), "the payload is read with a bufio.Scanner: a line longer than its buffer ends the scan silently and every TABDOC line after it is dropped")
@@ -426,12 +428,12 @@ func checkC18(p *Prog, r *Report) {
 			return
 		}
 		switch calleeName(cc.Common()) {
-		case "strings.HasPrefix", "strings.CutPrefix":
-			if s, ok := constString(cc.Common().Args[1]); ok && "# TABDOC:" == s {
+		case "strings.HasPrefix", "strings.CutPrefix", "bytes.HasPrefix", "bytes.CutPrefix", "strings.TrimPrefix", "bytes.TrimPrefix":
+			if s, ok := constString(stripConv(cc.Common().Args[1], true)); ok && "# TABDOC:" == s {
 				hasPrefix = true
 			}
-		case "strings.Cut":
-			if s, ok := constString(cc.Common().Args[1]); ok && " " == s {
+		case "strings.Cut", "bytes.Cut":
+			if s, ok := constString(stripConv(cc.Common().Args[1], true)); ok && " " == s {
 				cut = true
 			}
 		}
